@@ -264,7 +264,10 @@ type c06Result struct {
 	html    string
 }
 
-func runResponse(c *Ctx, in c06Input) (res c06Result) {
+func runResponse(c *Ctx, in c06Input) (res c06Result) { return runResponseWith(c, in, nil) }
+
+// runResponseWith: encSource != nil replaces the recording xmlenc random source.
+func runResponseWith(c *Ctx, in c06Input, encSource io.Reader) (res c06Result) {
 	reg := &stubRegistry{entries: []mRegEntry{{ID: in.regKey, Kind: "found", MD: in.md}}}
 	idp := newIDP(in.cfg, reg, in.sess.toSAML())
 	if in.intermediates {
@@ -273,6 +276,9 @@ func runResponse(c *Ctx, in c06Input) (res c06Result) {
 	sr, er := newStream(c.Rng, 48), newStream(c.Rng, 96)
 	oldS, oldE := saml.RandReader, xmlenc.RandReader
 	saml.RandReader, xmlenc.RandReader = sr, er
+	if encSource != nil {
+		xmlenc.RandReader = encSource
+	}
 	defer func() {
 		saml.RandReader, xmlenc.RandReader = oldS, oldE
 		res.rnd = mRands{Saml: sr.stream, Enc: er.stream}
